@@ -45,12 +45,35 @@ class StubEzsp:
         return (t.EzspStatus.SUCCESS, b"\x10")
 
 
-async def run_word(version, word, where):
+def deliver_callback(app, version, kind):
+    """an unsolicited NCP callback between two feeds: traffic is not a successful feed"""
+    import bellows.types as t
+
+    aps = t.EmberApsFrame(profileId=260, clusterId=6, sourceEndpoint=1, destinationEndpoint=1, options=0, groupId=0, sequence=0)
+    if kind == "sent":  # a delivery confirmation nobody waits for
+        if version >= 14:
+            args = [t.sl_Status.OK, t.EmberOutgoingMessageType.OUTGOING_DIRECT, 0x1234, aps, 0x99, b""]
+        else:
+            args = [t.EmberOutgoingMessageType.OUTGOING_DIRECT, 0x1234, aps, 0x99, t.EmberStatus.SUCCESS, b""]
+        app.ezsp_callback_handler("messageSentHandler", args)
+    elif kind == "other":
+        app.ezsp_callback_handler("counterRolloverHandler", [t.EmberCounterType.COUNTER_MAC_RX_BROADCAST])
+    else:
+        app.ezsp_callback_handler("stackStatusHandler", [t.sl_Status.NETWORK_UP if version >= 14 else t.EmberStatus.NETWORK_UP])
+
+
+async def run_word(version, word, where, cbs=None):
     app = shim.make_app()
     ez = StubEzsp(version)
     app._ezsp = ez
     out = []
     for i, o in enumerate(word):
+        if cbs and cbs[i]:
+            try:
+                deliver_callback(app, version, cbs[i])
+            except Exception as e:
+                out.append(f"X{type(e).__name__}:callback")
+                return out
         ez.plan = o
         ez.where = where[i] if version != 4 else 0
         ez.calls = []
@@ -107,12 +130,30 @@ def run(ctx):
         cases.append((v, "".join(ctx.rng.choice("ooooooooote") for _ in range(n))))
         cases.append((v, "o" * (period - 3) + "ttttttt" + "o" * 5))
 
+    # the same words again for a sample, now with unsolicited callbacks delivered between the feeds
+    plain = len(cases)
+    cbplan = [None] * plain
+    for version in (4, 8, 14):
+        for n in range(maxf, maxf + 3):
+            for w in itertools.product("ot", repeat=n):
+                for kind in ("sent", "other", "status"):
+                    cases.append((version, "".join(w)))
+                    cbplan.append([kind] * n)
+    for _ in range(ctx.n(100, 1000)):
+        v = ctx.rng.choice(range(4, 15))
+        n = ctx.rng.randint(8, 30)
+        cases.append((v, "".join(ctx.rng.choice("otttte") for _ in range(n))))
+        cbplan.append([ctx.rng.choice([None, "sent", "other", "status"]) for _ in range(n)])
+
     async def all_impl():
         res = []
-        for v, w in cases:
+        for (v, w), cb in zip(cases, cbplan):
             where = [ctx.rng.randint(0, 1) for _ in w]
-            res.append(await run_word(v, w, where))
+            wheres.append(where)
+            res.append(await run_word(v, w, where, cb))
         return res
+
+    wheres = []
 
     impl = asyncio.run(all_impl())
     # 'u' (feed succeeds, free-buffer value unavailable) is an `ok` outcome for the model and the property
@@ -128,7 +169,8 @@ def run(ctx):
         bad = oracle(v, w, got, maxf, period)
         if bad:
             k, msg = bad
-            ctx.violation(msg, {"version": v, "word": w[: k + 1]}, {"version": v, "word": w[: k + 1], "impl": got[: k + 1]})
+            ctx.violation(msg, {"version": v, "word": w[: k + 1]}, {"version": v, "word": w[: k + 1], "impl": got[: k + 1], "where": wheres[i][: k + 1],
+                                                                   "callbacks": cbplan[i][: k + 1] if cbplan[i] else None})
         if model is not None and " ".join(got) != model[i]:
             ctx.corr_diff("watchdog feed trace differs", {"version": v, "word": w}, " ".join(got), model[i])
         if i % 1500 == 7:
@@ -136,7 +178,7 @@ def run(ctx):
     ctx.cov["distinct_nontrivial"] = nontrivial
     ctx.cov["rule"] = (f"every outcome word over {{ok, timeout, EzspError}} of length 1..{L} for protocol versions 4 and 8 (exhaustive), "
                        "random longer words for the other versions, runs across the counter-clear period boundary; the failing command is the keep-alive or "
-                       "the free-buffer read at random; non-trivial = the word contains at least one failure; words are distinct by construction")
+                       "the free-buffer read at random; words over {ok, timeout} of length tolerated..tolerated+2 and random words with an unsolicited callback (unmatched delivery confirmation, counter rollover, stack status) delivered before every / random feeds; non-trivial = the word contains at least one failure; words are distinct by construction")
     ctx.exhaustive = True
 
 
@@ -148,7 +190,7 @@ def replay(ctx, obj):
     import bellows.zigbee.application as app_mod
 
     r = obj["replay"]
-    got = asyncio.run(run_word(r["version"], r["word"], [0] * len(r["word"])))
+    got = asyncio.run(run_word(r["version"], r["word"], r.get("where") or [0] * len(r["word"]), r.get("callbacks")))
     bad = oracle(r["version"], r["word"], got, app_mod.MAX_WATCHDOG_FAILURES, app_mod.EZSP_COUNTERS_CLEAR_IN_WATCHDOG_PERIODS)
     print(f"replay: v{r['version']} word {r['word']}: {got}: {'FAILS: ' + bad[1] if bad else 'ok'}")
     if bad:
